@@ -643,6 +643,7 @@ class BuilderSim:
         self.handles = []  # (handle, expected output count, producer)
         self.deps = {}
         self.scratch = []
+        self.detached = []
         self.meta = {}
         self.funcs = []  # dict(node, name, sig(PolyFuncType), params)
         self.module = None
@@ -1288,9 +1289,16 @@ class BuilderSim:
         if any(w.var for w in ws):
             raise HarnessError("variable-typed wire passed to a detached builder")
         self.ctx.ev(a.id, "detached-builder", kind)
-        sub = BuilderSim(self.ctx, root_kind=kind, features=sub_feats, max_steps=4 + ch.draw(15, "sub-steps"), root_inputs=ri)
-        sub.next_id = self.next_id  # actor ids stay unique across the sub-simulation
-        sub.run()
+        again = [x for x in self.detached if x[0] == kind and x[1] == [repr(x_) for x_ in (ri if kind in ("dfg", "cfg") else [*ri[0:1], *ri[1]])]]
+        if again and ch.coin(1, 2, "insert-same-source-again"):
+            # the same detached builder inserted a second time: the copies share nothing but the (immutable) operations
+            sub = again[0][2]
+            self.ctx.probe("same_source_inserted_twice")
+        else:
+            sub = BuilderSim(self.ctx, root_kind=kind, features=sub_feats, max_steps=4 + ch.draw(15, "sub-steps"), root_inputs=ri)
+            sub.next_id = self.next_id  # actor ids stay unique across the sub-simulation
+            sub.run()
+            self.detached.append((kind, [repr(x_) for x_ in (ri if kind in ("dfg", "cfg") else [*ri[0:1], *ri[1]])], sub))
         op = sub.hugr[sub.hugr.root].op
         out_tys = list(op.outer_signature().output)
         wires = [w.wire for w in ws]
